@@ -193,16 +193,27 @@ func (a *linAn) condFacts() {
 		if !ok {
 			continue
 		}
-		bo, ok := iff.Cond.(*ssa.BinOp)
-		if !ok || !isInt(bo.X.Type()) {
+		var x, y form
+		var cmpOp token.Token
+		condDesc := ""
+		if bo, ok := iff.Cond.(*ssa.BinOp); ok && isInt(bo.X.Type()) {
+			x, y, cmpOp = a.lin(bo.X), a.lin(bo.Y), bo.Op
+			condDesc = fmt.Sprintf("%s %%s %s", a.exprStr(bo.X), a.exprStr(bo.Y))
+		} else if px, py, pop, neg, ok := a.predicateCall(iff.Cond); ok {
+			// a module predicate such as need(b, n) := len(b) >= n, possibly negated
+			x, y, cmpOp = px, py, pop
+			if neg {
+				cmpOp = negateCmp(pop)
+			}
+			condDesc = fmt.Sprintf("(%s) %%s (%s) [predicate helper]", px, py)
+		} else {
 			continue
 		}
-		x, y := a.lin(bo.X), a.lin(bo.Y)
 		for k, s := range b.Succs {
 			if len(s.Preds) != 1 || b.Succs[0] == b.Succs[1] {
 				continue
 			}
-			op := bo.Op
+			op := cmpOp
 			if k == 1 {
 				switch op {
 				case token.LSS:
@@ -219,7 +230,7 @@ func (a *linAn) condFacts() {
 					op = token.EQL
 				}
 			}
-			why := fmt.Sprintf("%s %s %s", a.exprStr(bo.X), op, a.exprStr(bo.Y))
+			why := fmt.Sprintf(condDesc, op)
 			switch op {
 			case token.LSS:
 				a.facts = append(a.facts, fact{f: addF(addF(y, x, -1), konst(1), -1), scope: s, why: why})
@@ -377,3 +388,94 @@ func (a *linAn) phiByName(name string) *ssa.Phi {
 }
 
 func isSignedInt(t types.Type) bool { return isInt(t) && !isUnsigned(t) }
+
+func negateCmp(op token.Token) token.Token {
+	switch op {
+	case token.LSS:
+		return token.GEQ
+	case token.LEQ:
+		return token.GTR
+	case token.GTR:
+		return token.LEQ
+	case token.GEQ:
+		return token.LSS
+	case token.EQL:
+		return token.NEQ
+	case token.NEQ:
+		return token.EQL
+	}
+	return op
+}
+
+// predicateCall recognises cond = p(args...) or !p(args...) where p is a module function whose body is a single
+// `return <a> OP <b>` with a, b built from its parameters, len(parameter) and constants; it returns the comparison
+// instantiated at the call's arguments.
+func (a *linAn) predicateCall(cond ssa.Value) (x, y form, op token.Token, negated, ok bool) {
+	if u, isU := cond.(*ssa.UnOp); isU && u.Op == token.NOT {
+		x, y, op, negated, ok = a.predicateCall(u.X)
+		return x, y, op, !negated, ok
+	}
+	call, isC := cond.(*ssa.Call)
+	if !isC {
+		return
+	}
+	f := call.Call.StaticCallee()
+	if f == nil || f.Blocks == nil || len(f.Blocks) != 1 || !a.c.InModule(f) {
+		return
+	}
+	ret, isR := f.Blocks[0].Instrs[len(f.Blocks[0].Instrs)-1].(*ssa.Return)
+	if !isR || len(ret.Results) != 1 {
+		return
+	}
+	bo, isB := ret.Results[0].(*ssa.BinOp)
+	if !isB || !isInt(bo.X.Type()) {
+		return
+	}
+	var inst func(v ssa.Value) (form, bool)
+	inst = func(v ssa.Value) (form, bool) {
+		switch z := v.(type) {
+		case *ssa.Const:
+			if n, ok := constInt(z); ok {
+				return konst(n), true
+			}
+		case *ssa.Parameter:
+			for i, p := range f.Params {
+				if p == z && i < len(call.Call.Args) {
+					return a.lin(call.Call.Args[i]), true
+				}
+			}
+		case *ssa.Call:
+			if isBuiltin(z, "len") {
+				if p, ok := z.Call.Args[0].(*ssa.Parameter); ok {
+					for i, q := range f.Params {
+						if q == p && i < len(call.Call.Args) {
+							return a.lenForm(call.Call.Args[i]), true
+						}
+					}
+				}
+			}
+		case *ssa.BinOp:
+			l, ok1 := inst(z.X)
+			r, ok2 := inst(z.Y)
+			if ok1 && ok2 {
+				switch z.Op {
+				case token.ADD:
+					return addF(l, r, 1), true
+				case token.SUB:
+					return addF(l, r, -1), true
+				}
+			}
+		case *ssa.Convert:
+			if isSignedInt(z.Type()) && isSignedInt(z.X.Type()) {
+				return inst(z.X)
+			}
+		}
+		return form{}, false
+	}
+	fx, ok1 := inst(bo.X)
+	fy, ok2 := inst(bo.Y)
+	if !ok1 || !ok2 {
+		return
+	}
+	return fx, fy, bo.Op, false, true
+}
